@@ -69,6 +69,8 @@ def expr(e):
     k = e["k"]
     if k == "lit":
         return lit(e["t"], e["v"])
+    if k == "flit":
+        return ("-" if e["neg"] else "") + "%d.%d" % (e["w"], e["f"]) + ("#" if e["t"] == "D" else "")
     if k == "var":
         return e["n"] + sfx(e)
     if k == "idx":
@@ -271,6 +273,8 @@ def stmt(o, s, ind):
 
 
 def data_item(v):
+    if v["k"] == "flit":
+        return ("-" if v["neg"] else "") + "%d.%d" % (v["w"], v["f"])
     if v["t"] == "$":
         return lit("$", v["v"])
     return str(v["v"])
